@@ -248,6 +248,44 @@ fn adler_cases(o: &mut Out, b: &Built, rng: &mut Rng) {
             o.case(&format!("l0 {} {} 0 {}", opts.bits(), 67108864u64, hex(&bytes)), &strip_d(&run_l0(&[bytes.clone()], opts, None).text), &format!("adler-{}", label), true);
         }
     }
+    // the same through the setters that are called AFTER construction (Decoder::ignore_checksums, StreamingDecoder::set_ignore_adler32 / set_ignore_crc)
+    {
+        use png::{Decoded, Decoder, StreamingDecoder};
+        o.direct_checks += 2;
+        // Reader level: ignore_checksums(false) switches Adler-32 (and CRC) checking on
+        let r: Result<bool, String> = guarded(|| {
+            let mut d = Decoder::new(std::io::Cursor::new(&bytes[..]));
+            d.ignore_checksums(false);
+            let mut rd = match d.read_info() { Ok(r) => r, Err(_) => return true };
+            let mut buf = vec![0u8; rd.output_buffer_size()];
+            for _ in 0..=fr { if rd.next_frame(&mut buf).is_err() { return true; } }
+            false
+        });
+        if let Ok(false) | Err(_) = r {
+            o.violation(viol("wrong-adler32-accepted-with-checking-enabled", "wrong-adler32-accepted-with-checking-enabled",
+                vec![("file", jstr(&b.name)), ("frame", fr.to_string()), ("bytes", jstr(&hex(&bytes))), ("result", jstr(&format!("Decoder::ignore_checksums(false): {:?}", r)))]));
+        }
+        // low level: set_ignore_adler32(false) before the first byte
+        let r: Result<bool, String> = guarded(|| {
+            let mut d = StreamingDecoder::new();
+            let accepted = d.set_ignore_adler32(false);
+            let mut img = vec![];
+            let mut buf = &bytes[..];
+            let mut flushed = 0usize;
+            while !buf.is_empty() {
+                match d.update(buf, &mut img) {
+                    Err(_) => return true,
+                    Ok((n, ev)) => { buf = &buf[n..]; if matches!(ev, Decoded::ImageDataFlushed) { flushed += 1; if flushed > fr { return !accepted; } } if matches!(ev, Decoded::ImageEnd) { break; } }
+                }
+            }
+            !accepted
+        });
+        if let Ok(false) | Err(_) = r {
+            o.violation(viol("wrong-adler32-accepted-with-checking-enabled", "wrong-adler32-accepted-with-checking-enabled",
+                vec![("file", jstr(&b.name)), ("frame", fr.to_string()), ("bytes", jstr(&hex(&bytes))), ("result", jstr(&format!("StreamingDecoder::set_ignore_adler32(false): {:?}", r)))]));
+        }
+        o.count("adler.enabled-after-construction");
+    }
     // correct checksums must of course be accepted with checking on
     let s = summarize(&good_bytes, &[0], Opts { ignore_adler: false, ..Opts::default() }, 0);
     o.direct_checks += 1;
